@@ -21,7 +21,7 @@ from .vequiv import Equiv, wrap_in_box
 from symx import core
 
 import py4hw
-from py4hw.logic.storage import Reg, SynchronousMemory, AsynchronousMemory, DualPortSynchronousMemory, Latch
+from py4hw.logic.storage import Reg, SynchronousMemory, AsynchronousMemory, DualPortSynchronousMemory, Latch, DelayLine
 from py4hw.logic.bitwise import *         # noqa
 from py4hw.logic.arithmetic import *      # noqa
 from py4hw.logic.relational import *      # noqa
@@ -215,6 +215,16 @@ def extra_cfgs(tier):
         Add(s, 'other', step, step, y)
         return {'ins': {'step': step}, 'outs': {'q': q, 'y': y}}
     add('shared Add used with distinct operands and with one wire on both operands, around a register', selfadd)
+
+    # two instances of one per-instance class: the first without registers, the second with registers (and the reverse)
+    for first, second in ((0, 2), (2, 0), (0, 1)):
+        def dl(s, first=first, second=second):
+            a, en = W(s, 'a', 4), W(s, 'en', 1)
+            r1, r2 = W(s, 'r1', 4), W(s, 'r2', 4)
+            DelayLine(s, 'd_first', a, en, None, r1, first)
+            DelayLine(s, 'd_second', a, en, None, r2, second)
+            return {'ins': {'a': a, 'en': en}, 'outs': {'r1': r1, 'r2': r2}}
+        add('DelayLine delay %d next to DelayLine delay %d' % (first, second), dl)
 
     def hier(s):
         a, e = W(s, 'a', 3), W(s, 'e', 1)
